@@ -243,7 +243,19 @@ def check_scrypt(ctx, P):
         ctx.check(pred.implies(facts, at), "param-guard", "ScryptParams::new:" + nm, "`%s` dominates the constructor" % nm, "ScryptParams::new no longer enforces `%s` (RFC 7914 parameter constraint) before constructing the parameters" % nm, where=fn.where(), key="param-guard:ScryptParams::new:%s" % nm.replace(" ", ""))
     # r * p < 2^30
     ok = any(f[0] == "le" and f[2] == 0x40000000 - 1 and len(f[1]) == 1 and "Mul" in f[1][0][0] and "arg2" in f[1][0][0] and "arg3" in f[1][0][0] for f in facts)
-    ctx.check(ok, "param-guard", "ScryptParams::new:r*p<2^30", "`r * p < 2^30` dominates the constructor", "ScryptParams::new no longer enforces r * p < 2^30", where=fn.where(), key="param-guard:ScryptParams::new:r*p")
+    # ... and the product is formed in a type that cannot wrap for any two u32 arguments (in a release build a wrapped
+    # u32 product would let r = p = 65536 through)
+    narrow = []
+    for bb in sorted(fn.reachable()):
+        for st in fn.stmts(bb):
+            if st[0] == "=" and st[2][0] == "bin" and st[2][1].startswith("Mul"):
+                names = "".join(pred.canon(fn.expr(o), fn) for o in st[2][2:4])
+                if "arg2" in names and "arg3" in names:
+                    ty = fn.locals[st[1][0]] or ""
+                    if not re.search(r"\b(usize|u64|u128)\b", ty):
+                        narrow.append(ty)
+    ok = ok and not narrow
+    ctx.check(ok, "param-guard", "ScryptParams::new:r*p<2^30", "`r * p < 2^30` dominates the constructor and is computed in a 64-bit type", "ScryptParams::new no longer enforces r * p < 2^30 for every pair of u32 arguments%s" % ((": the product is formed in %s and wraps" % narrow[0]) if narrow else ""), where=fn.where(), key="param-guard:ScryptParams::new:r*p")
     # checked multiplications 128 r, 128 r N, 128 r p with panicking None
     prods = []
     for e, val, o in fn.edge_facts(b):
